@@ -1913,7 +1913,7 @@ func (r *frReader) RunEvent(time.Time) {
 			}
 		}
 		x.k.Lock()
-		if err != nil && err.Error() == "dns: short read" && x.sc.ReaderAPI != 2 && x.got < len(x.msgs) && len(x.msgs[x.got]) < 12 {
+		if err != nil && errors.Is(err, dns.ErrShortRead) && x.sc.ReaderAPI != 2 && x.got < len(x.msgs) && len(x.msgs[x.got]) < 12 {
 			// the frame held fewer octets than a header: reported, and consumed - what follows is still framed
 			x.got++
 			x.res.Stats["oracle.F2_runt_frame_reported"]++
